@@ -28,30 +28,42 @@ CLAIMED = {
              "simplification pass is the identity and never fails (generate_second_pass_id/_total), optimize on raw terms yields nfo, "
              "optimize is the identity on nfo terms. Tied by the exact (ordered) views X-infer and X-union — the latter exhaustive over "
              "every multiset of <=3 members of a 35-type universe — and by the executable statement run on the implementation.", "6 (C08)"),
-    "C09": C("Theorems (Props/C09.v): first-match detection in registration order (iff), resolve keeps a type covering every member "
-             "under sound+acyclic replace pairs (refuted for cyclic pairs), str_result shape, disabled types never appear in generate() "
-             "output; registry registrations regenerated from the source (Gen/StrReg.v). parse/render/parse round trips of float and "
-             "date/time values are oracle-only (CPython dtoa, dateutil): partial.", "6 (C09)"),
+    "C09": C("Theorems (Props/C09.v): first-match detection in registration order (iff); resolve keeps a type covering every member "
+             "under sound+acyclic replace pairs (refuted for cyclic pairs); disabled types never appear in generate() output; explicit "
+             "recognisers of what int() / float() / the boolean rule accept, with int_ok_float_ok (EVERY string int() accepts, float() "
+             "accepts) discharging the soundness premise for the replacement table regenerated from the source (Gen/StrReg.v), so the "
+             "resolution theorem holds premise-free for the shipped registry. The recognisers are tied to the package's IntString / "
+             "FloatString / BooleanString on all strings of length <=4 over 16 characters plus structured random ones (X-grammar). "
+             "parse/render/parse round trips of float and date/time VALUES are oracle-only (CPython dtoa, dateutil): partial.", "6 (C09)"),
     "C10": C("Theorems (Props/C10.v): the overflow rule (<=15 literals, each < 20 chars) regenerated from complex.py equals the model's; "
              "DUnion keeps exactly one literal holding exactly the observed plain strings iff no str member, no overflowed literal and "
              "the folded set does not overflow, otherwise str; render limit (len < max, 0 or attrs => never). Annotation bytes tied by "
              "X-emit; evaluated annotations of the loaded module judged by the oracle over the boundary stream.", "6 (C10)"),
-    "C03": C("Theorems (Props/C03.v, growing): every Python keyword is blacklisted and the '_' suffix escapes the blacklist (over the tables "
-             "regenerated from models/base.py and the interpreter). The emitter model is tied byte-for-byte to generate_code on every "
-             "explored registry (X-emit, including the cases where the implementation raises); that CPython compiles, executes and "
-             "resolves every annotation of the emitted text is judged by the oracle (compile + exec + get_type_hints with the class "
-             "scope chain): partial.", "6 (C03)"),
-    "C04": C("Theorems (Props/C04.v, growing): per generator, the field body holds a default exactly when the field is optional "
-             "([] / {} / None; list / dict factories), alias=json(key) exactly when the label differs from the key. Bytes tied by X-emit; "
-             "the evaluated annotations, attached keys and defaults of the loaded classes are compared field by field with an "
-             "independent rendering of the registry by the oracle: partial.", "6 (C04)"),
-    "C11": C("Theorems (Props/C11.v, growing; label_fold / label_injective / convert_idem being merged from Proofs/LabelProps.v): "
-             "table links, blacklist suffix property. prepare_label / underscore / camelize are tied by X-names on wide-alphabet keys, "
-             "alias / metadata literals by X-emit; distinctness and recoverability judged on the loaded field tables: partial.", "6 (C11)"),
+    "C03": C("Theorems (Props/C03.v): every Python keyword is blacklisted and the '_' suffix escapes the blacklist (tables regenerated "
+             "from models/base.py and the interpreter); after generate_names every model has a name and names are pairwise distinct "
+             "(premise: no empty explicit name, shown necessary), first holders / unique names / indices / fields unchanged, the code "
+             "before the D33 repair refuted; in the flat layout of a closed graph every model reference targets exactly one placed, "
+             "uniquely named class. Model of generate_names tied by X-names(registry), the emitter byte-for-byte by X-emit (also "
+             "where the implementation raises); that CPython compiles, executes and resolves every annotation of the emitted text is "
+             "judged by the oracle (compile + exec + get_type_hints with the class scope chain): partial.", "6 (C03)"),
+    "C04": C("Theorems (Props/C04.v): per generator, the field body holds a default exactly when the field is optional ([] / {} / "
+             "None; list / dict factories), alias=json(key) exactly when the label differs from the key; parse_print: for EVERY type, "
+             "style and name table, reading the annotation text print_ty printed with a parser of the annotation language gives back "
+             "denote t (the specified syntax tree) and consumes nothing else; denote_injective states exactly what a style erases. "
+             "print_ty = metadata_to_typing and parse_ann = CPython's ast.parse on printed texts (X-ann), class bytes by X-emit; the "
+             "EVALUATED annotations, attached keys and defaults of the loaded classes are compared field by field with an "
+             "independent rendering of the registry by the oracle (typing's normalisation is runtime): partial.", "6 (C04)"),
+    "C11": C("Theorems (Props/C11.v): labels of keys that differ after folding are distinct (label_injective over label_fold), a "
+             "label is never blacklisted, starts with a letter or underscore, None exactly for keys without a word character, "
+             "conversion is idempotent; table links. prepare_label / underscore / camelize are tied by X-names on wide-alphabet keys, "
+             "generate_names by X-names(registry), alias / metadata literals by X-emit; distinctness and recoverability judged on the "
+             "loaded field tables: partial (unidecode / str.lower / re are oracles whose premises are checked over every code point).",
+             "6 (C11)"),
     "C12": C("Model of compose_models / compose_models_flat / extract_root / PositionsDict validated on both layouts of every explored "
-             "registry (X-layout, exact). Theorems (Props/C12.v; flat_perm / flat_root_first / nested_tree being merged from "
-             "Proofs/LayoutProps.v). The oracle compares both emitted modules class by class on tree-shaped graphs and checks flat "
-             "completeness on all inputs.", "6 (C12)"),
+             "registry (X-layout, exact). Theorems (Props/C12.v): the flat layout is a permutation of the models placing each exactly "
+             "once, roots first; on tree-shaped graphs the nested layout is a permutation too, every non-root class sits inside the "
+             "class that references it, children in reference order; both layouts hold the same models. The oracle compares both "
+             "emitted modules class by class on tree-shaped graphs and checks flat completeness on all inputs.", "6 (C12)"),
     "C13": C("Theorems (Props/C13.v): an object is detected as Dict iff it is empty, or the direct value of a named field, or all keys "
              "match one regex (dict_decision_iff); otherwise a model with exactly its keys; element/values of containers are never "
              "affected by the field option; Dict value type = union of the value types. Regex matching itself is an oracle (re); the "
@@ -123,7 +135,9 @@ m = {
     "not_applicable": [],
 }
 fixes = os.popen("git -C /repo log --format=%H\\ %s 0589c57..HEAD 2>/dev/null").read().strip().splitlines()
-m["hooks"]["source_commits"] = [l.split()[0] for l in fixes if l.split(" ", 1)[1].startswith("fix:")]
+# no hook commits exist; the unguarded "fix:" commits are not hooks: they are listed in known_findings.json and in notes
+m["notes"] += " Unguarded fix: commits in /repo (recorded as fixed in known_findings.json): " + ", ".join(
+    l.split()[0][:7] for l in fixes if l.split(" ", 1)[1].startswith("fix:")) + "."
 for pid in ALL:
     if pid in CLAIMED:
         c = CLAIMED[pid]
